@@ -358,6 +358,11 @@ func getUnquoteType(v *LVal) (unquoteType, error) {
 	if v.Cells[0].Type != LSymbol {
 		return unquoteNone, nil
 	}
+	if v.Cells[0].quoted {
+		// ('unquote x) is a list that starts with the symbol unquote as
+		// DATA; it is reproduced like any other part of the template.
+		return unquoteNone, nil
+	}
 	if v.Cells[0].Str == "unquote" {
 		if len(v.Cells) != 2 {
 			return unquoteValue, fmt.Errorf("%s: one argument expected (got %d)", v.Cells[0].Str, len(v.Cells)-1)
